@@ -80,14 +80,25 @@ SINKS = [
     # character classes: a str pattern follows Python's str semantics (\\w and \\d match non-ASCII letters and digits)
     (r'/w/(?P<word>\w+)$', False),
     (r'/n(?P<num>\d+)', False),
+    # a pre-compiled pattern keeps its flags
+    (r'/ci/(?P<v>v\d+)', 'I'),
 ]
+SINK_FLAGS = {'I': re.IGNORECASE}
+
+
+def _sink_flags(compiled):
+    return SINK_FLAGS.get(compiled, 0)
+
 
 STATICS = ['/', '/a', '/s', '/a/1', '/s/']
 
 PATHS = ['/', '/a', '/a/', '/a/1', '/a/12', '/a/1/f.txt', '/a/x', '/a/x/f.txt', '/s', '/s/f.txt', '/s/d/f.txt',
          '/sx', '/b/p-q', '/b/f.txt', '/f.txt', '/zz',
          # percent-encoded UTF-8: café, Cyrillic, an Arabic-Indic digit (the application sees the decoded path)
-         '/w/caf%C3%A9', '/w/abc', '/w/%D0%BE%D1%82', '/n%D9%A3', '/n7']
+         '/w/caf%C3%A9', '/w/abc', '/w/%D0%BE%D1%82', '/n%D9%A3', '/n7',
+         '/ci/v1', '/CI/V2', '/Ci/x',
+         # longer than 512 characters as a whole, but the part below the static prefix '/s/' is within the limit
+         '/s/' + 'x' * 510]
 
 FALLBACK = 'fallback.txt'
 
@@ -142,7 +153,7 @@ class Model(object):
                 self.router.add(TEMPLATES[op['t']], i)
                 self.routes[i] = (frozenset(impl), op['suffix'])
             elif op['k'] == 'sink':
-                self.sinks.append((i, re.compile(SINKS[op['p']][0])))
+                self.sinks.append((i, re.compile(SINKS[op['p']][0], _sink_flags(SINKS[op['p']][1]))))
             else:
                 self.statics.append((i, len(self.statics), _norm_prefix(STATICS[op['p']]), op['fb']))
 
@@ -266,7 +277,7 @@ def build_app(case, asgi, dirs, model, after_op=None):
                        'raised' if raised else 'not raised', 'raised' if i in model.rejected else 'not raised'))
         elif op['k'] == 'sink':
             text, compiled = SINKS[op['p']]
-            app.add_sink(_sink(asgi, ['sink', i]), re.compile(text) if compiled else text)
+            app.add_sink(_sink(asgi, ['sink', i]), re.compile(text, _sink_flags(compiled)) if compiled else text)
         else:
             kw = {'fallback_filename': FALLBACK} if op['fb'] else {}
             app.add_static_route(STATICS[op['p']], dirs[nstatic], **kw)
@@ -605,6 +616,9 @@ class Subsets(_Base):
         for sbs in (True, False):
             yield {'sbs': sbs, 'ops': [{'k': 'sink', 'p': 0}, {'k': 'sink', 'p': 5}, {'k': 'sink', 'p': 6}], 'reqs': wide}
             yield {'sbs': sbs, 'ops': [{'k': 'sink', 'p': 6}, {'k': 'static', 'p': 0, 'fb': False}, {'k': 'sink', 'p': 5}], 'reqs': wide}
+            more = [[PATHS.index(p), m] for p in ('/ci/v1', '/CI/V2', '/Ci/x', '/s/' + 'x' * 510, '/s/f.txt') for m in ('GET', 'POST')]
+            yield {'sbs': sbs, 'ops': [{'k': 'sink', 'p': 0}, {'k': 'sink', 'p': 7}, {'k': 'static', 'p': 2, 'fb': False}], 'reqs': more}
+            yield {'sbs': sbs, 'ops': [{'k': 'static', 'p': 4, 'fb': True}, {'k': 'sink', 'p': 3}, {'k': 'sink', 'p': 7}], 'reqs': more}
 
 
 SUITES = [Apps(), Subsets()]
